@@ -1,19 +1,25 @@
 """C16 — pending-event queues stay bounded, never block, keep lifo posts (queued charts and LockingDeque)."""
-import queue_corr, ldseq_corr
+import queue_corr, ldseq_corr, conc_corr
 
 
 def explore(run, lean):
     quick = run.tier == "quick"
     queue_corr.explore(run, "C16", 500 if quick else 8000)
     ldseq_corr.explore(run, 600 if quick else 10000)
+    # "one wake-up token per pending event when idle" also has to survive posters racing the consumer
+    conc_corr.explore(run, "C16", 40 if quick else 1000, escalate=bool(lean.get("broken")))
     run.extra["rule"] = ("(a) random queued charts whose handlers post/defer/recall, capacities 1-4 and 500, scripts of 3-14 client ops; "
                          "(b) random single-thread operation sequences (append, appendleft, pop, popleft, clear, len) on a real "
                          "LockingDeque at capacities 1-5 and 500, biased to full queues; every operation compared with the Lean "
-                         "model (result, deque, tokens, unfinished_tasks); distinct by canonical JSON")
+                         "model (result, deque, tokens, unfinished_tasks); (c) posters racing the consumer of a real ActiveObject "
+                         "under the deterministic scheduler (schedule replayed on the Lean model; at quiescence no pending event "
+                         "without a token); distinct by canonical JSON")
 
 
 def replay(case):
     cc = case.get("case", case)
     if "chart" in cc:
         return queue_corr.replay(case)
+    if "scenario" in cc:
+        return conc_corr.replay(case)
     return ldseq_corr.replay(case)
